@@ -266,7 +266,7 @@ def logtransform(W, copy=True):
     if np.logical_or(W > 1, W <= 0).any():
         raise ValueError("Connection strengths must be in the interval (0,1] "
                          "to use the transform -log(w_ij)")
-    W = -np.log(W)
+    W[...] = -np.log(W)
     return W
 
 def autofix(W, copy=True):
